@@ -56,6 +56,8 @@ fn main() {
         "c11" => c11_expr::run(&opts),
         "c16" => c16_subst::run(&opts),
         "defs" => loaddump::defs(&opts),
+        "loaddump" => loaddump::loaddump(&opts),
+        "jsondefs" => loaddump::jsondefs(&opts),
         "c11-one" => c11_expr::one(&opts),
         "c05-one" => c05_digits::one(&opts),
         "c07-one" => gen_names::one(&opts),
